@@ -367,7 +367,8 @@ def dump_frame(df, sym_table: List[str]) -> List[dict]:
             "stream": as_int(rec["stream"]) if "stream" in cols else -1,
             "corr": as_int(rec["correlation"]) if "correlation" in cols else -1,
             "icorr": as_int(rec["index_correlation"]) if "index_correlation" in cols else -1,
-            "iter": as_int(rec["iteration"]) if "iteration" in cols else -1,
+            # add_iteration leaves the iteration of a device row on stream 0 undefined (NaN): reported as -9 (C12's quantifier: positive stream ids)
+            "iter": (-9 if rec["iteration"] != rec["iteration"] else as_int(rec["iteration"])) if "iteration" in cols else -1,
             "name": sym_table[as_int(rec["name"])], "cat": sym_table[as_int(rec["cat"])],
         }
         if "end" in cols:
@@ -376,6 +377,54 @@ def dump_frame(df, sym_table: List[str]) -> List[dict]:
             r["bw"] = float(rec["memory_bw_gbps"])
         rows.append(r)
     return rows
+
+
+def input_contract(case: dict, impl: Any) -> List[str]:
+    """Stage contract (C01) re-checked where an analysis consumes the loaded frame: every row the analysis saw must be the image of the file
+    entry at its position (stream, duration, name, category, start shifted by one constant), and a rank with fewer than two profiler steps
+    must have lost no complete entry.  A loader fault would otherwise be invisible to a check whose model starts from the loaded frame."""
+    if not isinstance(impl, dict):
+        return []
+    frames = impl.get("frames")
+    if frames is None and "rows" in impl and "rank" in impl:
+        frames = {impl["rank"]: impl["rows"]}
+    if not isinstance(frames, dict) or not case.get("ranks"):
+        return []
+    out: List[str] = []
+    shifts = set()
+    for r, rows in frames.items():
+        rk = case["ranks"].get(int(r)) if int(r) in case["ranks"] else case["ranks"].get(str(r))
+        if rk is None or not isinstance(rows, list):
+            continue
+        evs = rk["events"]
+        complete = {i for i, e in enumerate(evs) if e.get("ph") == "X" and "dur" in e and e.get("cat") not in (None, "Trace")}
+        if any(isinstance(e.get("ts"), float) and e["ts"] != int(e["ts"]) for e in evs):
+            continue            # fractional timestamps are C01's own subject
+        n_steps = sum(1 for i in complete if str(evs[i].get("name", "")).startswith("ProfilerStep#"))
+        seen = set()
+        for row in rows:
+            i = row["idx"]
+            if i not in complete:
+                out.append(f"rank {r}: loaded row {i} is not a complete entry of the file")
+                continue
+            seen.add(i)
+            e = evs[i]
+            a = e.get("args") or {}
+            st = a.get("stream", -1)
+            try:
+                st = int(st)
+            except (TypeError, ValueError):
+                st = -1
+            want = (st, int(e["dur"]), str(e["name"]), str(e["cat"]))
+            got = (row["stream"], row["dur"], row["name"], row["cat"])
+            if want != got:
+                out.append(f"rank {r}: loaded row {i} is (stream, dur, name, cat) = {got}, the file entry at that position has {want}")
+            shifts.add(int(e["ts"]) - row["ts"])
+        if n_steps < 2 and seen != complete:
+            out.append(f"rank {r}: complete file entries {sorted(complete - seen)[:6]} are missing from the loaded frame (the rank has {n_steps} profiler step(s))")
+    if len(shifts) > 1:
+        out.append(f"the loaded start times are not the file's shifted by ONE constant: shifts seen {sorted(shifts)[:4]}")
+    return [("input stage (the frame the analysis consumed is not the image of the file, cf. C01): " + x) for x in out[:4]]
 
 
 def load_case(case: dict, d: str, **kw):
